@@ -24,6 +24,7 @@ class Park:
         self.sem = threading.Semaphore(0)
         self.arrived = threading.Semaphore(0)
         self.stop = False
+        self.take_refs = False
         self.count = 0
 
     def gate(self, tag):
@@ -63,6 +64,8 @@ def target_program(park: Park):
                 park.gate(1)
                 with M(("a", a)), M(("b", a)):
                     park.gate(2)
+                if park.take_refs:
+                    KEEP.append(sys._getframe())      # the target changes its own frame's reference count (stores its frame)
             finally:
                 pass
 
@@ -159,6 +162,61 @@ def run_schedule(schedule: Dict[int, int], max_reads: int = 40) -> dict:
         outcome["extract"] = {"frames": names, "foreign": foreign, "error": repr(st.error) if st.error else None}
     except Exception as e:
         outcome["extract"] = {"raised": f"{type(e).__name__}: {e}"}
+    # ... also while the target races, and also when the application runs with InspectionWarning turned into an error (as
+    # stackscope's own test configuration does): the same schedule applied to the reads that extract(thread) makes of the
+    # target's program frame.  A rejected snapshot then surfaces in Stack.error; the call still returns.
+    import warnings
+
+    from stackscope._lowlevel import InspectionWarning
+
+    reads2 = [0]
+
+    refmark_done = [False]
+
+    def local2(frame, event, arg):
+        if event == "line" and frame.f_locals.get("frame") is tf:
+            text = linecache.getline(code.co_filename, frame.f_lineno)
+            if "assert refcnt + 1 == sys.getrefcount(frame)" in text and not refmark_done[0] and schedule:
+                # between the raw read of the frame's reference count and the assertion that checks it, the target stores a
+                # reference to its own frame: the inspector's own sanity assertion fails (a trickery failure, not a crash)
+                refmark_done[0] = True
+                park.take_refs = True
+                park.advance(2)
+                park.take_refs = False
+            if any(m in text for m in READ_MARKS):
+                k = reads2[0]
+                reads2[0] += 1
+                adv = schedule.get(k, 0)
+                if adv and k < max_reads:
+                    park.advance(adv)
+        return local2
+
+    def tracer2(frame, event, arg):
+        return local2 if frame.f_code is code else None
+
+    import contextlib
+    import io
+
+    for mode in ("default", "error"):
+        reads2[0] = 0
+        refmark_done[0] = False
+        with warnings.catch_warnings(), contextlib.redirect_stderr(io.StringIO()):
+            warnings.simplefilter("error" if mode == "error" else "always", InspectionWarning)
+            sys.settrace(tracer2)
+            try:
+                st = stackscope.extract(t)
+                own = set()
+                f = sys._current_frames().get(t.ident)
+                while f is not None:
+                    own.add(id(f))
+                    f = f.f_back
+                outcome["extract_racing_" + mode] = {"frames": len(st.frames), "names": [x.funcname for x in st.frames][:8],
+                                                     "error": repr(st.error)[:120] if st.error else None,
+                                                     "foreign": [x.funcname for x in st.frames if id(x.pyframe) not in own and x.funcname != "gate"]}
+            except BaseException as e:
+                outcome["extract_racing_" + mode] = {"raised": f"{type(e).__name__}: {str(e)[:160]}"}
+            finally:
+                sys.settrace(None)
     park.stop = True
     park.sem.release()
     t.join(5)
